@@ -13,7 +13,10 @@ ON_NAMES = ["CALL", "SETATTR", "ALL"]
 
 #: class shapes
 SHAPES = ["plain", "slots", "dataclass", "namedtuple", "dbc", "dbc_sub_first", "dbc_sub_middle", "dbc_sub_last",
-          "dbc_sub_members", "plain_getattribute", "dbc_sub_noinit", "dbc_sub_prop_setter"]
+          "dbc_sub_members", "plain_getattribute", "dbc_sub_noinit", "dbc_sub_prop_setter",
+          # a constructor given as an alias (``__init__ = setup``); a built-in container subclass without a Python
+          # ``__init__``; a subclass adding ``__init__`` to a base which has none (the base's ``__new__`` is wrapped)
+          "plain_init_alias", "list_sub", "dbc_sub_init_over_noinit"]
 
 #: operations on a constructed instance; (name, wrapped-by-CALL-invariants?)
 OPS = [("pub", True), ("_prot", False), ("__priv", False), ("__call__", True), ("__len__", True), ("__eq__", True),
@@ -58,6 +61,10 @@ class World:
             def cond(self: Any) -> Any:
                 if w.h.constructing:
                     w.h.log.append(("inv-during-construction", idx))
+                if shape == "list_sub" and list.__len__(self) == 0:
+                    # every instance of the family is constructed from a non-empty list: an empty one has not been
+                    # initialised by ``list.__init__`` yet
+                    w.h.log.append(("inv-during-construction", idx))
                 w.h.log.append(("inv", idx))
                 return w.h.next_truth()
             return icontract.invariant(cond, error=lambda: Tag(("inv", idx)), check_on=CHECK_ON[on])
@@ -87,6 +94,9 @@ class World:
             finally:
                 w.h.constructing -= 1
 
+        def setup(self: Any) -> None:
+            init_plain(self)
+
         init_plain.__name__ = "__init__"  # as a ``def __init__`` in a class body would be
         base_invs = [(i, on) for i, (on, where) in enumerate(invs) if where == "base"]
         sub_invs = [(i, on) for i, (on, where) in enumerate(invs) if where == "sub"]
@@ -101,6 +111,14 @@ class World:
                     return object.__getattribute__(self, name)
                 ns["__getattribute__"] = __getattribute__
             cls = type("K", (), ns)
+        elif shape == "plain_init_alias":
+            ns = members()
+            ns["__init__"] = setup  # class K: __init__ = setup
+            cls = type("K", (), ns)
+        elif shape == "list_sub":
+            ns = members()
+            del ns["__eq__"], ns["__hash__"], ns["__len__"], ns["__repr__"]
+            cls = type("K", (list,), ns)
         elif shape == "slots":
             ns = members()
             ns["__slots__"] = ("x", "y")
@@ -124,14 +142,17 @@ class World:
         else:
             # subclass shapes on DBC: the base carries the "base" invariants, the subclass the "sub" ones
             ns = members()
-            ns["__init__"] = init_plain
+            if shape == "dbc_sub_init_over_noinit":
+                ns["x"] = 1
+            else:
+                ns["__init__"] = init_plain
             base = icontract.DBCMeta("Base", (icontract.DBC,), ns)
             for (i, on) in base_invs:
                 base = mk_inv(i, on)(base)
             base_invs = []
             sub_ns = {}  # type: Dict[str, Any]
             pos = {"dbc_sub_first": 0, "dbc_sub_middle": 1, "dbc_sub_last": 2}.get(shape)
-            if pos is not None or shape == "dbc_sub_members":
+            if pos is not None or shape in ("dbc_sub_members", "dbc_sub_init_over_noinit"):
                 def init_sub(self: Any) -> None:
                     w.h.constructing += 1
                     try:
@@ -167,6 +188,8 @@ class World:
     def construct(self) -> Any:
         if self.shape in ("namedtuple", "dataclass"):
             return self.cls(1)
+        if self.shape == "list_sub":
+            return self.cls([1, 2])
         return self.cls()
 
 
@@ -229,13 +252,15 @@ def expected_for(w: World, op: str, truth_iter: Any) -> Tuple[List[Tuple[Any, ..
 
 def _ctor_bodies(w: World) -> List[Tuple[Any, ...]]:
     s = w.shape
-    if s in ("dataclass", "namedtuple"):
+    if s in ("dataclass", "namedtuple", "list_sub"):
         return []
+    if s == "dbc_sub_init_over_noinit":
+        return [("body", "sub.__init__"), ("body", "pub")]
     if s in ("dbc_sub_noinit", "dbc_sub_prop_setter"):
         return [("body", "__init__"), ("body", "pub")]
     init = [("body", "__init__"), ("body", "pub")]
     sub_pub = ("body", "pub")
-    if s in ("plain", "slots", "dbc", "plain_getattribute"):
+    if s in ("plain", "slots", "dbc", "plain_getattribute", "plain_init_alias"):
         return init
     if s in ("dbc_sub_first", "dbc_sub_members"):
         return init + [("body", "sub.__init__"), sub_pub]
@@ -295,8 +320,8 @@ def applicable(w: World, op: str) -> bool:
         return s not in ("namedtuple",)  # tuples have no instance dict / settable attribute
     if s == "dataclass" and op in ("__eq__", "__repr__"):
         return False  # generated by dataclass - kept out of the family
-    if s == "namedtuple" and op in ("__eq__", "__len__", "__repr__"):
-        return False  # C-implemented on tuple: "defined in Python" does not apply
+    if s in ("namedtuple", "list_sub") and op in ("__eq__", "__len__", "__repr__"):
+        return False  # C-implemented on tuple / list: "defined in Python" does not apply
     return True
 
 
